@@ -46,7 +46,8 @@ var fixed = []Case{
 	{"fixed/crlf", "package x\r\n\r\ntempl x(s string) {\r\n\t<p>{ f(\r\n\t\ts,\r\n\t) }</p>\r\n}\r\n"},
 	{"fixed/go-blocks", "//go:build x\n\n// Cömment\npackage x\n\nimport \"fmt\"\n\nvar ü = \"é\"\n\ntempl x() {\n\t{ ü }\n}\n\nfunc f() string {\n\treturn \"世\"\n}\n\n// trailing\n"},
 	{"fixed/css-script", "package x\n\ncss c(é string) {\n\tcolor: { é };\n\tmargin: 0;\n}\n\nscript s(a string, b int) {\n\tconsole.log(a, b);\n}\n\ntempl x() {\n\t<div class={ c(\"ü\") } onclick={ s(\"é\", 1) }>x</div>\n\t<script>\n\t\tconst v = {{ \"é\" }}; const w = \"{{ f() }}\";\n\t</script>\n}\n"},
-	{"fixed/same-line-templates", "package x\n\ntempl a() {\n\t{ x }\n}templ b() {\n\t{ y }\n}\n"},
+	{"fixed/same-line-templates", "package x\n\ntempl a() {<p>a</p>}templ b() {<p>b</p>}\n"},
+	{"fixed/same-line-css-templ", "package x\n\ncss c() {color: red;}templ b() {<p class={ c() }>b</p>}\n"},
 }
 
 type result struct {
@@ -114,116 +115,121 @@ func Run(c *core.Ctx) {
 		return
 	}
 
-	// ---- build the case list (value-determined)
-	var cases []Case
-	cases = append(cases, fixed...)
+	// ---- case list (value-determined), produced and checked in chunks so
+	// that the thorough tier never holds all programs and results at once.
+	var first []Case
+	first = append(first, fixed...)
 	mr := c.Rand("corpus-mutants")
 	for _, s := range ptree.LoadCorpus(c.Repo) {
 		txt := s.Text
 		if !s.Whole {
 			txt = ptree.Wrap(txt)
 		}
-		cases = append(cases, Case{s.Name, txt}, Case{s.Name + "+crlf", ptree.CRLF(txt)})
+		first = append(first, Case{s.Name, txt}, Case{s.Name + "+crlf", ptree.CRLF(txt)})
 		for k := 0; k < c.Pick(2, 6); k++ {
-			cases = append(cases, Case{fmt.Sprintf("%s+wide%d", s.Name, k), ptree.WideBefore(mr, txt)})
+			first = append(first, Case{fmt.Sprintf("%s+wide%d", s.Name, k), ptree.WideBefore(mr, txt)})
 		}
 		// structure-aware mutants; most are rejected, the accepted ones are
 		// layouts nobody wrote by hand
 		for k := 0; k < c.Pick(8, 60); k++ {
-			cases = append(cases, Case{fmt.Sprintf("%s+mut%d", s.Name, k), ptree.Mutate(mr, txt)})
+			first = append(first, Case{fmt.Sprintf("%s+mut%d", s.Name, k), ptree.Mutate(mr, txt)})
 		}
 	}
-	nCorpus := len(cases)
 	nGen := c.Pick(12000, 150000)
 	gr := c.Rand("programs")
-	for i := 0; i < nGen; i++ {
-		cases = append(cases, Case{fmt.Sprintf("gen/%d", i), ptree.GenProgram(rand.New(rand.NewSource(gr.Int63())))})
-	}
+	const chunk = 15000
 
-	c.Set("t_build_cases_s", time.Since(c.Start).Seconds())
-	// ---- run
-	results := make([]result, len(cases))
-	var wg sync.WaitGroup
-	idx := make(chan int, 64)
-	for w := 0; w < 16; w++ {
-		wg.Add(1)
-		go func() {
-			defer wg.Done()
-			for i := range idx {
-				results[i] = runCase(cases[i])
-			}
-		}()
-	}
-	done := make(chan struct{})
-	go func() {
-		for i := range cases {
-			idx <- i
-		}
-		close(idx)
-		wg.Wait()
-		close(done)
-	}()
-	select {
-	case <-done:
-	case <-time.After(time.Duration(c.Pick(20, 90)) * time.Minute):
-		core.Infra("watchdog: source-map cases did not finish (a parse or generate call hangs?)")
-	}
-
-	c.Set("t_run_cases_s", time.Since(c.Start).Seconds())
-	// ---- aggregate
 	stages := map[string]int{}
 	slots := map[string][3]int{}
+	fx := map[string]string{}
 	var tot Stats
 	var fails []failing
-	accepted, acceptedGen := 0, 0
-	for i, r := range results {
-		stages[r.stage]++
-		if r.stage != "ok" {
-			continue
-		}
-		accepted++
-		if i >= nCorpus {
-			acceptedGen++
-		}
-		c.Eval(r.st.Positions + r.st.EOLs + r.st.Symbols)
-		if r.st.MultiLine+r.st.MultiByte > 0 {
-			c.NontrivialStr(r.cs.Src)
-		}
-		tot.Exprs += r.st.Exprs
-		tot.Positions += r.st.Positions
-		tot.EOLs += r.st.EOLs
-		tot.MidRune += r.st.MidRune
-		tot.MultiLine += r.st.MultiLine
-		tot.MultiByte += r.st.MultiByte
-		tot.MBBefore += r.st.MBBefore
-		tot.Symbols += r.st.Symbols
-		tot.GoBlocksNoSymbol += r.st.GoBlocksNoSymbol
-		tot.MapEntries += r.st.MapEntries
-		tot.StrayEqual += r.st.StrayEqual
-		tot.StrayNoSource += r.st.StrayNoSource
-		for k, v := range r.st.Slots {
-			s := slots[k]
-			s[0], s[1], s[2] = s[0]+v[0], s[1]+v[1], s[2]+v[2]
-			slots[k] = s
-		}
-		// One root cause usually raises several kinds of alarm in a program;
-		// only the highest-priority kind of each family (position tables,
-		// symbol ranges) is turned into a witness.
-		for _, fam := range [][]string{positionKinds, symbolKinds} {
-			if al, ok := firstOf(r.alarms, fam); ok {
-				fails = append(fails, failing{i, al.Kind, al.Slot})
+	accepted, acceptedGen, total := 0, 0, 0
+	for g := -1; g*chunk < nGen; g++ {
+		var cases []Case
+		if g < 0 {
+			cases = first
+		} else {
+			for i := g * chunk; i < nGen && i < (g+1)*chunk; i++ {
+				cases = append(cases, Case{fmt.Sprintf("gen/%d", i), ptree.GenProgram(rand.New(rand.NewSource(gr.Int63())))})
 			}
 		}
-		if len(r.alarms) == 0 && r.st.MultiLine > 0 && r.st.MultiByte > 0 && len(r.cs.Src) < 500 {
-			c.Sample(map[string]any{"name": r.cs.Name, "src": r.cs.Src, "expressions": r.st.Exprs, "positions_checked": r.st.Positions, "verdict": "held"})
+		total += len(cases)
+		results := make([]result, len(cases))
+		var wg sync.WaitGroup
+		idx := make(chan int, 64)
+		for w := 0; w < 16; w++ {
+			wg.Add(1)
+			go func() {
+				defer wg.Done()
+				for i := range idx {
+					results[i] = runCase(cases[i])
+				}
+			}()
+		}
+		done := make(chan struct{})
+		go func() {
+			for i := range cases {
+				idx <- i
+			}
+			close(idx)
+			wg.Wait()
+			close(done)
+		}()
+		select {
+		case <-done:
+		case <-time.After(30 * time.Minute):
+			core.Infra("watchdog: source-map cases did not finish (a parse or generate call hangs?)")
+		}
+		for i, r := range results {
+			if g < 0 && i < len(fixed) {
+				fx[r.cs.Name] = r.stage
+			}
+			stages[r.stage]++
+			if r.stage != "ok" {
+				continue
+			}
+			accepted++
+			if g >= 0 {
+				acceptedGen++
+			}
+			c.Eval(r.st.Positions + r.st.EOLs + r.st.Symbols)
+			if r.st.MultiLine+r.st.MultiByte > 0 {
+				c.NontrivialStr(r.cs.Src)
+			}
+			tot.Exprs += r.st.Exprs
+			tot.Positions += r.st.Positions
+			tot.EOLs += r.st.EOLs
+			tot.MidRune += r.st.MidRune
+			tot.MultiLine += r.st.MultiLine
+			tot.MultiByte += r.st.MultiByte
+			tot.MBBefore += r.st.MBBefore
+			tot.Symbols += r.st.Symbols
+			tot.GoBlocksNoSymbol += r.st.GoBlocksNoSymbol
+			tot.MapEntries += r.st.MapEntries
+			tot.StrayEqual += r.st.StrayEqual
+			tot.StrayNoSource += r.st.StrayNoSource
+			for k, v := range r.st.Slots {
+				s := slots[k]
+				s[0], s[1], s[2] = s[0]+v[0], s[1]+v[1], s[2]+v[2]
+				slots[k] = s
+			}
+			// One root cause usually raises several kinds of alarm in a program;
+			// only the highest-priority kind of each family (position tables,
+			// symbol ranges) is turned into a witness.
+			for _, fam := range [][]string{positionKinds, symbolKinds} {
+				if al, ok := firstOf(r.alarms, fam); ok {
+					fails = append(fails, failing{r.cs, al.Kind, al.Slot})
+				}
+			}
+			if len(r.alarms) == 0 && r.st.MultiLine > 0 && r.st.MultiByte > 0 && len(r.cs.Src) < 500 {
+				c.Sample(map[string]any{"name": r.cs.Name, "src": r.cs.Src, "expressions": r.st.Exprs, "positions_checked": r.st.Positions, "verdict": "held"})
+			}
 		}
 	}
-	fx := map[string]string{}
-	for i := range fixed {
-		fx[fixed[i].Name] = results[i].stage
-	}
+	c.Set("t_run_cases_s", time.Since(c.Start).Seconds())
 	c.Set("fixed_cases", fx)
-	c.Set("programs_total", len(cases))
+	c.Set("programs_total", total)
 	c.Set("programs_generated", nGen)
 	c.Set("programs_accepted", accepted)
 	c.Set("programs_accepted_generated", acceptedGen)
@@ -251,14 +257,14 @@ func Run(c *core.Ctx) {
 		}
 	}
 
-	// ---- canonical witnesses: per (kind, slot) reduce the three smallest
+	// ---- canonical witnesses: per (kind, slot) reduce the two smallest
 	// failing programs with "still accepted and still an alarm of this kind".
 	sort.SliceStable(fails, func(a, b int) bool {
-		la, lb := len(results[fails[a].i].cs.Src), len(results[fails[b].i].cs.Src)
+		la, lb := len(fails[a].cs.Src), len(fails[b].cs.Src)
 		if la != lb {
 			return la < lb
 		}
-		return fails[a].i < fails[b].i
+		return fails[a].cs.Src < fails[b].cs.Src
 	})
 	perGroup := map[string]int{}
 	type job struct {
@@ -269,16 +275,16 @@ func Run(c *core.Ctx) {
 	var jobs []*job
 	for _, f := range fails {
 		g := f.kind + "|" + f.slot
-		if perGroup[g] >= 3 {
+		if perGroup[g] >= 2 {
 			continue
 		}
 		perGroup[g]++
 		jobs = append(jobs, &job{f: f})
 	}
 	c.Set("failing_programs", func() int {
-		m := map[int]bool{}
+		m := map[string]bool{}
 		for _, f := range fails {
-			m[f.i] = true
+			m[f.cs.Src] = true
 		}
 		return len(m)
 	}())
@@ -291,8 +297,7 @@ func Run(c *core.Ctx) {
 		go func(j *job) {
 			defer rw.Done()
 			defer func() { <-sem }()
-			src := results[j.f.i].cs.Src
-			j.red = ptree.Reduce(src, func(s string) bool { return hasKind(s, j.f.kind) })
+			j.red = ptree.Reduce(j.f.cs.Src, func(s string) bool { return hasKind(s, j.f.kind) })
 			j.key = j.f.kind + "\n" + j.red
 		}(j)
 	}
@@ -306,7 +311,7 @@ func Run(c *core.Ctx) {
 				break
 			}
 		}
-		c.Violate(j.key, fmt.Sprintf("source map wrong for template %s (reduced from %s): %s", core.Q(j.red), results[j.f.i].cs.Name, msg), Case{Name: "reduced:" + results[j.f.i].cs.Name, Src: j.red})
+		c.Violate(j.key, fmt.Sprintf("source map wrong for template %s (reduced from %s): %s", core.Q(j.red), j.f.cs.Name, msg), Case{Name: "reduced:" + j.f.cs.Name, Src: j.red})
 	}
 }
 
@@ -326,7 +331,7 @@ func firstOf(alarms []ptree.Alarm, kinds []string) (ptree.Alarm, bool) {
 }
 
 type failing struct {
-	i    int
+	cs   Case
 	kind string
 	slot string
 }
